@@ -148,8 +148,117 @@ fn function_value() -> RV {
     instantiate(&Tpl::Map(vec![("a", Tpl::List(vec![Tpl::Leaf, Tpl::Leaf])), ("A", Tpl::Map(vec![("a", Tpl::Leaf), ("0", Tpl::Leaf), ("1", Tpl::Leaf)])), ("ab", Tpl::None), ("0", Tpl::Leaf)]), &mut n)
 }
 
+/// names that rule text cannot spell, reached through the constructors: a reference names an input
+/// field, a symbol names a registered symbol, whatever characters the name is made of
+fn api_names_leg(acc: &mut Acc) {
+    let names = ["first-name", "2fa", "", "a b", "é", "max-age", "x.y", "if", "none", "i5", "f.5", "\"q\"", "a\nb", "_", "facts "];
+    for present in [true, false] {
+        let facts = if present { Value::Map(names.iter().enumerate().map(|(i, n)| (n.to_string(), Value::Int(i as i128))).collect()) } else { Value::Map([("other".to_string(), Value::Int(1))].into_iter().collect()) };
+        let mut b = ruleset();
+        if present {
+            for (i, n) in names.iter().enumerate() {
+                b = b.with_symbol(*n, Value::Int(100 + i as i128));
+            }
+        }
+        for (i, n) in names.iter().enumerate() {
+            b = match b.with_rule(Rule::new(format!("ref{i}"), BTreeMap::new(), Expr::reff(*n))).and_then(|b| b.with_rule(Rule::new(format!("sym{i}"), BTreeMap::new(), Expr::symbol(*n)))) {
+                Ok(b) => b,
+                Err(e) => return acc.machinery(format!("api-names: {e}")),
+            };
+        }
+        let rs = b.build();
+        acc.count("executions", 1);
+        match catch(|| block_on(rs.evaluate_value(&facts))) {
+            Ok(Ok(Ok(out))) => {
+                for (k, o) in out.iter().enumerate() {
+                    let (i, is_ref) = (k / 2, k % 2 == 0);
+                    let n = names[i];
+                    let got = observe(Ok(match &o.value {
+                        Ok(v) => Ok(v.clone()),
+                        Err(e) => Err(reval_error_clone(e)),
+                    }));
+                    let want: RRes = match (present, is_ref) {
+                        (true, true) => Ok(RV::Int(i as i128)),
+                        (true, false) => Ok(RV::Int(100 + i as i128)),
+                        (false, true) => Err(RErr::UnknownRef(n.to_string())),
+                        (false, false) => Err(RErr::InvalidSymbol(n.to_string())),
+                    };
+                    // the word `facts` itself is the whole input; every other name is a plain name
+                    if conforms(&want, &got) == Some(false) {
+                        acc.violation(Violation {
+                            sig: format!("api-name/{}/{}", if is_ref { "reference" } else { "symbol" }, got.class()),
+                            what: format!("{} {n:?} built through the constructor ({}): observed {}, expected {}", if is_ref { "reference" } else { "symbol" }, if present { "present" } else { "absent" }, got.show(), show_exp(&want)),
+                            case: json!({"kind": "api-step", "name": n}),
+                            size: n.len(),
+                        });
+                    }
+                }
+                acc.outcome("api-names");
+            }
+            Ok(other) => acc.machinery(format!("api-names: {:?}", other.map(|r| r.map(|o| o.len()).map_err(|e| e.to_string())))),
+            Err(p) => acc.violation(Violation { sig: "api-name/panic".into(), what: format!("evaluating references / symbols with names that are not identifiers panicked: {p}"), case: json!({"kind": "api-step"}), size: 1 }),
+        }
+    }
+    // many symbols: every one of 400 000 registered names resolves to its own value (a table keyed by
+    // anything shorter than the name collides somewhere)
+    let n = 400_000usize;
+    // random-looking names (sequential ones spread too evenly under common hash functions)
+    let name = |i: usize| -> String {
+        let mut x = (i as u64).wrapping_mul(0x9E37_79B9_7F4A_7C15).wrapping_add(0x0123_4567);
+        let mut t = String::new();
+        while x > 0 {
+            t.insert(0, char::from_digit((x % 36) as u32, 36).unwrap());
+            x /= 36;
+        }
+        format!("w{t}")
+    };
+    let mut b = ruleset();
+    let mut syms = Symbols::default();
+    for i in 0..n {
+        syms.insert(name(i), Value::Int(i as i128));
+    }
+    b = match b.with_symbols(syms) {
+        Ok(b) => b,
+        Err(e) => return acc.machinery(format!("many-symbols: {e}")),
+    };
+    let all = Expr::Vec((0..n).map(|i| Expr::symbol(name(i))).collect());
+    let unknown = Expr::Vec(vec![Expr::symbol("w300000"), Expr::symbol("W0")]);
+    let rs = match b.with_rule(Rule::new("all", BTreeMap::new(), all)).and_then(|b| b.with_rule(Rule::new("unknown", BTreeMap::new(), unknown))) {
+        Ok(b) => b.build(),
+        Err(e) => return acc.machinery(format!("many-symbols: {e}")),
+    };
+    acc.count("executions", 1);
+    match catch(|| block_on(rs.evaluate_value(&Value::None))) {
+        Ok(Ok(Ok(out))) => {
+            let bad = match &out[0].value {
+                Ok(Value::Vec(items)) if items.len() == n => items.iter().enumerate().find(|(i, v)| **v != Value::Int(*i as i128)).map(|(i, v)| format!(":{} (registered as i{i}) resolves to {v:?}", name(i))),
+                other => Some(format!("outcome {:?}", other.as_ref().map(|_| "..").map_err(|e| e.to_string()))),
+            };
+            let unknown_ok = matches!(&out[1].value, Err(reval::Error::InvalidSymbol(s)) if s == "w300000");
+            if let Some(d) = bad {
+                acc.violation(Violation { sig: "many-symbols/wrong-value".into(), what: format!("{n} symbols registered: {d}"), case: json!({"kind": "api-step"}), size: 1 });
+            } else if !unknown_ok {
+                acc.violation(Violation { sig: "many-symbols/unknown".into(), what: format!("{n} symbols registered: the unknown symbol :w300000 gives {:?}", out[1].value.as_ref().map_err(|e| e.to_string())), case: json!({"kind": "api-step"}), size: 1 });
+            }
+            acc.outcome("many-symbols");
+        }
+        Ok(other) => acc.machinery(format!("many-symbols: {:?}", other.map(|r| r.map(|o| o.len()).map_err(|e| e.to_string())))),
+        Err(p) => acc.violation(Violation { sig: "many-symbols/panic".into(), what: format!("panicked: {p}"), case: json!({"kind": "api-step"}), size: 1 }),
+    }
+}
+
+fn reval_error_clone(e: &reval::Error) -> reval::Error {
+    match e {
+        reval::Error::UnknownRef(n) => reval::Error::UnknownRef(n.clone()),
+        reval::Error::InvalidSymbol(n) => reval::Error::InvalidSymbol(n.clone()),
+        reval::Error::InvalidType => reval::Error::InvalidType,
+        other => reval::Error::UnknownRef(format!("<{other}>")),
+    }
+}
+
 /// steps that only exist as text or only through the API
 fn special_steps_leg(acc: &mut Acc) {
+    api_names_leg(acc);
     let list = RV::List((0..3).map(|i| RV::Str(format!("item{i}"))).collect());
     let digits = RV::map(&[("0", RV::str("zero")), ("1", RV::str("one")), ("007", RV::str("bond")), ("+1", RV::str("plus")), ("2024", RV::str("year")), ("a", RV::str("letter")), (" 1", RV::str("space"))]);
     let facts = RV::map(&[("list", list.clone()), ("by_id", digits.clone())]).to_value();
